@@ -258,14 +258,10 @@ def check_routing(fx, R):
             continue
         R.check(not bad, 'K2', fname, '%s does not keep %s: %s' % (fname, what, [(k, str(g)[:120]) for k, g in bad]), 'keeps ' + what, fx.rel(f['loc']), 'E-SIB')
         if len(fv) == 1:
-            R.used(fv[0])
-            st = stmts_sx(fv[0])
-            okv = len(st) == 3 and st[0][0] == 'decl' and st[1] == ('expr', (fname, fv[0]['params'][0]['name'], st[0][1])) and st[2] == ('return', st[0][1])
-            if okv:
-                R.holds('K2', fname + '(by value)', 'delegates to the two-argument overload', fx.rel(fv[0]['loc']), 'E-SIB')
-            else:
-                R.undecided('K2', fname + '(by value)', 'delegation idiom not recognised: %s' % (st,))
+            by_value_delegation(fx, R, fname, fv[0])
     fpt = [f for f in fx.fn(NS + 'toPoseAndTwist2D') if len(f['params']) == 2]
+    for fv_ in [f for f in fx.fn(NS + 'toPoseAndTwist2D') if len(f['params']) == 1]:
+        by_value_delegation(fx, R, 'toPoseAndTwist2D', fv_)
     if len(fpt) == 1:
         R.used(fpt[0])
         v, w, D = mat.fresh('v', 3, 1), mat.fresh('w', 3, 1), mat.fresh('D', 6, 6)
@@ -323,6 +319,26 @@ def check_routing(fx, R):
                 R.undecided('K2', 'toPoseAndTwist2D', 'output parameter not readable')
     else:
         R.undecided('K2', 'toPoseAndTwist2D', 'overload not found')
+
+
+def by_value_delegation(fx, R, fname, fv):
+    """The by-value overload `T2 f(const T3 &)`: declares a result, hands (argument, result) to the two-argument overload, returns the result."""
+    R.used(fv)
+    st = stmts_sx(fv)
+    pn = fv['params'][0]['name']
+    okv = len(st) == 3 and st[0][0] == 'decl' and st[1] == ('expr', (fname, pn, st[0][1])) and st[2] == ('return', st[0][1])
+    if okv:
+        R.holds('K2', fname + '(by value)', 'delegates to the two-argument overload', fx.rel(fv['loc']), 'E-SIB')
+        return
+    # a fact that holds whatever the form: the argument is never used
+    def mentions(t, name):
+        return t == name or (isinstance(t, tuple) and any(mentions(x, name) for x in t))
+    uses_arg = any(mentions(s_, pn) for s_ in st)
+    if not uses_arg:
+        R.violated('K2', fname + '(by value):argument-unused', 'the by-value overload %s(%s) never uses its argument (statements: %s): what it returns does not depend on the 3D quantity it is given - a '
+                   'default-constructed planar value for every input' % (fname, pn, [s_[0] if isinstance(s_, tuple) else s_ for s_ in st]), fx.rel(fv['loc']), 'E-SIB')
+    else:
+        R.undecided('K2', fname + '(by value)', 'delegation idiom not recognised: %s' % (st,))
 
 
 def check_pose_action(fx, R):
